@@ -794,21 +794,21 @@ Qed.
 
 (* ---- non-vacuity: concrete reachable runs ---- *)
 Example silent_peer_times_out :
-  let '(s, _, ok) := canonical (mkscen (mkcfg 30 40 10 4 100000) CAccept [mkact false None false false] 1 1 20 0 false false) in
+  let '(s, _, ok) := canonical (mkscen (mkcfg 30 40 10 4 100000) CAccept [mkact false None false false] 1 1 20 [0] false false) in
   ok = true /\ model_calls s = [(OTimeout, 20)] /\ queueLen s = 0%Z /\ invokeNum s = 0%Z /\ resp s = [].
 Proof. vm_compute. repeat split; reflexivity. Qed.
 
 Example late_then_fast_replies :
-  let '(s, _, ok) := canonical (mkscen (mkcfg 30 40 10 4 100000) CAccept [mkact false (Some 30) false false; mkact false (Some 0) false false] 1 2 20 1 false false) in
+  let '(s, _, ok) := canonical (mkscen (mkcfg 30 40 10 4 100000) CAccept [mkact false (Some 30) false false; mkact false (Some 0) false false] 1 2 20 [1] false false) in
   ok = true /\ model_calls s = [(OTimeout, 20); (OReply, 0)] /\ queueLen s = 0%Z /\ invokeNum s = 0%Z /\ resp s = [].
 Proof. vm_compute. repeat split; reflexivity. Qed.
 
 Example one_way_returns_at_once :
-  let '(s, _, ok) := canonical (mkscen (mkcfg 30 40 10 4 100000) CAccept [mkact false None false false] 1 2 20 1 true false) in
+  let '(s, _, ok) := canonical (mkscen (mkcfg 30 40 10 4 100000) CAccept [mkact false None false false] 1 2 20 [1] true false) in
   ok = true /\ model_calls s = [(OSent, 0); (OSent, 0)] /\ queueLen s = 0%Z /\ invokeNum s = 0%Z /\ resp s = [].
 Proof. vm_compute. repeat split; reflexivity. Qed.
 
 Example stalled_three_callers :
-  let '(s, _, ok) := canonical (mkscen (mkcfg 30 40 10 4 100000) CStall [mkact false None false false] 3 1 10 0 false false) in
+  let '(s, _, ok) := canonical (mkscen (mkcfg 30 40 10 4 100000) CStall [mkact false None false false] 3 1 10 [0] false false) in
   ok = true /\ model_calls s = [(OError, 30); (OError, 60); (OError, 90)].
 Proof. vm_compute. repeat split; reflexivity. Qed.
